@@ -6,6 +6,7 @@ import (
 
 	"github.com/ethereum/go-ethereum/common"
 	"github.com/ethereum/go-ethereum/crypto"
+	"github.com/ethereum/go-ethereum/triedb/database"
 	tl "verif/harness/tracelib"
 )
 
@@ -23,6 +24,9 @@ func (rn *Runner) WaitIndexed() bool {
 		exists, inited := rn.E.PDB.VerifHistIndexInited(false)
 		if !exists {
 			return false
+		}
+		if texists, tinited := rn.E.PDB.VerifHistIndexInited(true); texists && !tinited {
+			inited = false
 		}
 		if inited {
 			return true
@@ -140,4 +144,38 @@ func (rn *Runner) HRead(w World) (served bool) {
 		rn.Sum.Count("HRead:served")
 	}
 	return served
+}
+
+// histNodeDB serves every trie of one historic state through the historic node reader.
+type histNodeDB struct{ r database.NodeReader }
+
+func (h histNodeDB) NodeReader(common.Hash) (database.NodeReader, error) { return h.r, nil }
+
+// HNode opens the historic trie-node reader at world w and walks the account trie and all
+// storage tries of that state through it; the state read back is logged.
+func (rn *Runner) HNode(w World) {
+	e := rn.E
+	wi := e.Reg.Info(w)
+	ev := tl.M{"op": "HNode", "w": w}
+	world := []int{}
+	hr, err := e.TDB.HistoricNodeReader(wi.Root)
+	if err != nil {
+		ev["served"] = false
+		ev["err"] = err.Error()
+	} else {
+		ev["served"] = true
+		got, err := e.ReadTrieFrom(histNodeDB{hr}, wi.Root)
+		if err != nil {
+			ev["rerr"] = err.Error()
+		} else {
+			world = got
+		}
+	}
+	ev["world"] = world
+	rn.observe(ev)
+	rn.Tr.Emit(ev)
+	rn.Sum.Count("HNode")
+	if err == nil {
+		rn.Sum.Count("HNode:served")
+	}
 }
